@@ -6,6 +6,7 @@ package main
 // "facts[0:n] /\ pc ==> goal".
 
 import (
+	"strconv"
 	"fmt"
 	"go/token"
 	"sort"
@@ -201,6 +202,36 @@ func (vc *VC) arith(op string, a, b string, signed bool) string {
 		case "%":
 			return fmt.Sprintf("(gomod %s %s)", a, b)
 		case "&", "|", "^", "<<", ">>", "&^":
+			// both operands literal: fold (the values are those of Go's int64 arithmetic)
+			if ai, e1 := strconv.ParseInt(a, 10, 64); e1 == nil && ai >= 0 {
+				if bi, e2 := strconv.ParseInt(b, 10, 64); e2 == nil && bi >= 0 {
+					var r int64
+					okf := true
+					switch op {
+					case "&":
+						r = ai & bi
+					case "|":
+						r = ai | bi
+					case "^":
+						r = ai ^ bi
+					case "&^":
+						r = ai &^ bi
+					case "<<":
+						if bi < 62 && ai < (1<<(62-uint(bi))) {
+							r = ai << uint(bi)
+						} else {
+							okf = false
+						}
+					case ">>":
+						if bi < 64 {
+							r = ai >> uint(bi)
+						}
+					}
+					if okf {
+						return strconv.FormatInt(r, 10)
+					}
+				}
+			}
 			return fmt.Sprintf("(%s %s %s)", vc.bitUF(op), a, b)
 		}
 	} else {
@@ -234,6 +265,13 @@ func (vc *VC) arith(op string, a, b string, signed bool) string {
 // bitUF: in Int mode bit operations are uninterpreted (sound: nothing is known about them).
 func (vc *VC) bitUF(op string) string {
 	name := map[string]string{"&": "bit_and", "|": "bit_or", "^": "bit_xor", "<<": "bit_shl", ">>": "bit_shr", "&^": "bit_andnot"}[op]
+	if op == "<<" && !vc.declared["fun:"+name] {
+		vc.declFun(name, []string{"Int", "Int"}, "Int")
+		// ground facts: 1 << k for the shift counts of a 64-bit integer
+		for k := 0; k < 63; k++ {
+			vc.termFact(fmt.Sprintf("(= (%s 1 %d) %d)", name, k, int64(1)<<uint(k)))
+		}
+	}
 	vc.declFun(name, []string{"Int", "Int"}, "Int")
 	vc.note("bit operation " + op + " left uninterpreted in Int mode")
 	return name
